@@ -4,7 +4,7 @@ CFG = dict(
     level="proof",
     lean_modules=["ElysModel.Props.C11"],
     props_files=["ElysModel/Props/C11.lean"],
-    runs=[scn_run("c11"), hist_run(focus="perp."), fault_run(focus="perp.", whale=True)],
+    runs=[scn_run("c11"), hist_run(focus="perp."), fault_run(focus="perp.", whale=True), govpool_run(focus="amm.")],
     rule=HIST_RULE + "; plus directed scenarios (mode scn, prefix c11)",
     trusted_base=COMMON_TB + ["per (pool, asset) the block's deltas of amm book, liabilities and custody are witnessed (W); TotalTokens and NonAmmPoolTokens are predicted"],
     assumptions=["EnableTakeProfitCustodyLiabilities stays at its default false"],
